@@ -54,7 +54,7 @@ def effChain (cs : List Cls) (n : String) : Option (Field × List Setter) :=
 /-- the chain for `n` is define's default (not an explicit argument anywhere) -/
 def isDefineDefault (cs : List Cls) (n : String) : Bool :=
   match cs.getLast?, fieldOf cs n with
-  | some l, some f => l.isDefine && l.clsOn == .unset && f.onSet == .unset
+  | some l, some f => l.isDefine && l.clsOn == .unset && f.onSet == .unset && f.init
   | _, _ => false
 
 /-! ## What a chain does -/
